@@ -6,7 +6,7 @@ use crate::book::{
     Cfg, KeyClass,
 };
 use crate::chain::{Accepted, Chain, CoinS, Mech, Outcome, Refusal, TxFaults, TxResult};
-use crate::dec::{self, Parsed};
+use crate::dec::{self, Dec, Parsed};
 use crate::model::{self, AttrExp, Ctx, Effects, Expect, InstExpect, Req};
 use crate::rng::Fnv;
 use crate::types::*;
@@ -564,6 +564,7 @@ impl Sim {
                 .push((acc.attrs.clone(), sender.to_string(), self.chain.height));
             self.c17_shadow(&kind);
             self.c17_truth(&req, &kind, &acc, &res, &book_pre, &cfg_pre);
+            self.c03_limit_prices(&req, &kind, &acc, &book_pre, &cfg_pre);
             self.track_freeze(&book_pre);
             self.c12_relational(&req, &kind, &exp);
             // abstract state / transition coverage
@@ -1747,6 +1748,79 @@ impl Sim {
             // resynchronise so one divergence is reported once
             self.resync_shadow();
         }
+    }
+
+    /// C03, model-free: no seller is paid less per unit than their limit, no buyer pays more than theirs.
+    /// Judged on the emitted transfers of an accepted match, when the parties are distinct accounts.
+    fn c03_limit_prices(&mut self, req: &Req, kind: &str, acc: &Accepted, book_pre: &Book, cfg_pre: &Cfg) {
+        let (ask_id, bid_id) = match req {
+            Req::ExecuteMatch { ask_id, bid_id, .. } => (ask_id, bid_id),
+            _ => return,
+        };
+        let (a, b) = match (book_pre.asks.get(ask_id), book_pre.bids.get(bid_id)) {
+            (Some(a), Some(b)) => (a, b),
+            _ => return,
+        };
+        let seller: &String = match &a.class {
+            AskClass::Ready { approver, .. } => approver,
+            _ => &a.owner,
+        };
+        let af = cfg_pre.ask_fee.as_ref().map(|f| f.account.clone());
+        let bf = cfg_pre.bid_fee.as_ref().map(|f| f.account.clone());
+        // coinciding parties make "who was paid for what" ambiguous: skip those
+        let mut names: Vec<&String> = vec![seller, &b.owner];
+        if let Some(x) = &af {
+            names.push(x);
+        }
+        if let Some(x) = &bf {
+            names.push(x);
+        }
+        let mut sorted = names.clone();
+        sorted.sort();
+        sorted.dedup();
+        if sorted.len() != names.len() || names.iter().any(|n| **n == self.chain.contract) {
+            return;
+        }
+        let s_after = self.book.asks.get(ask_id).map(|x| x.size).unwrap_or(0);
+        let size = a.size.saturating_sub(s_after);
+        if size == 0 || size >= (1u128 << 96) {
+            return;
+        }
+        let (ap, bp) = match (dec::parse(&a.price), dec::parse(&b.price)) {
+            (Parsed::Ok(x), Parsed::Ok(y)) => (x, y),
+            _ => return,
+        };
+        let q = &b.quote_denom;
+        let to = |who: &String| -> u128 { acc.xfers.iter().filter(|x| &x.to == who && &x.denom == q).map(|x| x.amount).sum() };
+        let seller_side = to(seller) + af.as_ref().map(|x| to(x)).unwrap_or(0);
+        let buyer_pays = seller_side + bf.as_ref().map(|x| to(x)).unwrap_or(0);
+        // seller side (proceeds + the fee taken from them) >= ask price * size
+        if let Some(min) = ap.mul_int(dec::u(size)) {
+            let got = Dec { neg: false, mant: dec::u(seller_side), scale: 0 };
+            if got.cmp_val(&min) == std::cmp::Ordering::Less {
+                self.flag(
+                    &["C03", "C02"],
+                    "C03.seller_paid_below_limit",
+                    kind,
+                    "",
+                    format!("ask {} at {} filled for {} units but the selling side received only {} {}", ask_id, a.price, size, seller_side, q),
+                );
+            }
+        }
+        // what leaves the bid's escrow towards others <= bid price * size + the fee the bid still held
+        if let Some(max) = bp.mul_int(dec::u(size)) {
+            let paid = Dec { neg: false, mant: dec::u(buyer_pays.saturating_sub(b.unspent_fee())), scale: 0 };
+            if paid.cmp_val(&max) == std::cmp::Ordering::Greater {
+                self.flag(
+                    &["C03", "C02"],
+                    "C03.buyer_pays_above_limit",
+                    kind,
+                    "",
+                    format!("bid {} at {} filled for {} units but {} {} left its escrow towards the other parties", bid_id, b.price, size, buyer_pays, q),
+                );
+            }
+        }
+        self.cov.hit("C03", Fnv::new().str("limit").u128(size).str(&a.price).str(&b.price).finish(), true);
     }
 
     /// C17, model-free: the amounts a response reports against what the ledger and the book show
